@@ -412,12 +412,12 @@ Ltac pres_start s l Hs :=
   dstate s; label_cases l; open_step Hs; guards Hs; injection Hs as <-; gfacts.
 
 
-(* the labels in seven parts (one proof file per group and part) *)
+(* the labels in eight parts (one proof file per group and part) *)
 Definition part (l : label) : nat :=
   match thread_of l, exec_label l with
   | THome, true => 1
   | TFinal, _ => 1
-  | THome, false => 2
+  | THome, false => match l with LPoll _ => 2 | _ => 8 end
   | THandle, _ => 3
   | TWaker, _ => match l with WSched (ARetry | AEarly | ALoad) => 5 | WSched APush => 6 | WSched _ => 7 | _ => 4 end
   end.
